@@ -276,6 +276,16 @@ func (e *Ev) evBuiltin(x *ast.CallExpr, name string) Val {
 		switch b := base.(type) {
 		case VStrs:
 			if x.Ellipsis.IsValid() {
+				// append(a, b...): the elements of a followed by those of b
+				if o, ok := e.ev(x.Args[1]).(VStrs); ok && len(x.Args) == 2 && !e.contract {
+					fx := e.fx
+					n := fx.name(sortInt, "apn", sAdd(b.N, o.N))
+					fx.assume(e.st.pc, sLt(n, maxLen)) // standing assumption: every slice is shorter than 2^56
+					nb, no, nl := fx.declare(sortArrArr, "ap_sb"), fx.declare(sortArr, "ap_so"), fx.declare(sortArr, "ap_sl")
+					fx.assume(e.st.pc, fmt.Sprintf("(forall ((k!ap Int)) (=> (and (<= 0 k!ap) (< k!ap %s)) (and (= (select %s k!ap) (select %s k!ap)) (= (select %s k!ap) (select %s k!ap)) (= (select %s k!ap) (select %s k!ap)))))", b.N, nb, b.B, no, b.O, nl, b.L))
+					fx.assume(e.st.pc, fmt.Sprintf("(forall ((k!ap Int)) (=> (and (<= 0 k!ap) (< k!ap %s)) (and (= (select %s (+ %s k!ap)) (select %s k!ap)) (= (select %s (+ %s k!ap)) (select %s k!ap)) (= (select %s (+ %s k!ap)) (select %s k!ap)))))", o.N, nb, b.N, o.B, no, b.N, o.O, nl, b.N, o.L))
+					return VStrs{B: nb, O: no, L: nl, N: n, Wrap: b.Wrap, WrapField: b.WrapField}
+				}
 				e.unsupp(x, "append with ...")
 			}
 			cur := b
